@@ -383,8 +383,15 @@ type writerSpy struct {
 	fault  func(call int, p []byte) (int, error) // nil = accept
 }
 
+// outputLimit is far above what any generated history can legitimately produce (60 units of at most 70 kB): a Muxer
+// that passes it is writing packets in an endless loop.
+const outputLimit = 64 << 20
+
 func (w *writerSpy) Write(p []byte) (int, error) {
 	w.calls++
+	if w.buf.Len() > outputLimit {
+		panic(fmt.Sprintf("the Muxer has written more than %d bytes for one call history: runaway packet loop", outputLimit))
+	}
 	if w.fault != nil {
 		n, err := w.fault(w.calls, p)
 		if n > 0 {
@@ -405,7 +412,7 @@ func (w *writerSpy) Write(p []byte) (int, error) {
 // sniffAutoPID replays the configuration changing calls on a scratch Muxer and reads the PID the library assigned
 // to the stream at position idx from the PMT it writes; ok=false when the scratch PMT cannot be produced.
 func sniffAutoPID(replay []func(*astits.Muxer), idx int) (uint16, bool) {
-	var buf bytes.Buffer
+	var buf cappedBuffer
 	m := astits.NewMuxer(context.Background(), &buf)
 	for _, f := range replay {
 		f(m)
@@ -442,7 +449,12 @@ func sniffAutoPID(replay []func(*astits.Muxer), idx int) (uint16, bool) {
 }
 
 // runMuxHistory applies the operations to a Muxer writing to w and returns the trace.
-func runMuxHistory(period int, setPeriod bool, ops []muxOp, w *writerSpy, noReAddOpt ...bool) *muxTrace {
+func runMuxHistory(period int, setPeriod bool, ops []muxOp, w *writerSpy, noReAddOpt ...bool) (tr *muxTrace) {
+	guarded("the Muxer call history", func() { tr = runMuxHistoryUnguarded(period, setPeriod, ops, w, noReAddOpt...) })
+	return
+}
+
+func runMuxHistoryUnguarded(period int, setPeriod bool, ops []muxOp, w *writerSpy, noReAddOpt ...bool) *muxTrace {
 	noReAdd := len(noReAddOpt) > 0 && noReAddOpt[0]
 	var opts []func(*astits.Muxer)
 	if setPeriod {
